@@ -968,6 +968,69 @@ def history_probe(seed, tier):
     return out[:3]
 
 
+BEHAVIOR_CODE = r"""
+import sys, json
+sys.path.insert(0, %r); sys.path.insert(0, %r)
+import numpy, awkward as ak, vector
+out = []
+def keys(d):
+    return sorted(map(repr, d.keys()))
+reg0 = keys(vector.backends.awkward.behavior)
+glob0 = keys(ak.behavior)
+fresh = lambda: vector.Array([{"x": 3.0, "y": 4.0}, {"x": 6.0, "y": 8.0}])
+r0 = ak.to_list(abs(fresh()))
+f0 = sorted(map(repr, fresh().behavior.keys()))
+# a caller-owned behavior with a private entry AND an override of an entry vector defines itself
+user = {"my-private-key": 1, (numpy.absolute, "Vector2D"): (lambda v: 7.0 * v.x), ("*", "MyRecord"): ak.Record}
+u0 = keys(user)
+for data, kw in (([{"x": 1.0, "y": 2.0, "z": 3.0}], {}), ([{"x": 1.0, "y": 2.0}], {}), ([{"rho": 1.0, "phi": 2.0, "eta": 0.5, "tau": 4.0}], {})):
+    a = ak.Array(data, behavior=user)
+    for ctor in (lambda: vector.Array(a), lambda: vector.awk(a), lambda: vector.zip({f: a[f] for f in ak.fields(a)}), lambda: vector.Array(data, behavior=user)):
+        try:
+            ctor()
+        except Exception as e:
+            pass
+    if keys(user) != u0:
+        out.append(["global-state:caller-behavior", "a constructor changed the behavior mapping the caller passed in: " + str(sorted(set(keys(user)) ^ set(u0)))[:200]])
+    if keys(ak.behavior) != glob0:
+        out.append(["global-state:ak.behavior", "a constructor changed awkward's global behavior registry without register_awkward(): " + str(sorted(set(keys(ak.behavior)) ^ set(glob0)))[:200]])
+    if keys(vector.backends.awkward.behavior) != reg0:
+        out.append(["global-state:vector-registry", "a constructor wrote into vector's own behavior registry: " + str(sorted(set(keys(vector.backends.awkward.behavior)) ^ set(reg0)))[:200]])
+    r1 = ak.to_list(abs(fresh()))
+    f1 = sorted(map(repr, fresh().behavior.keys()))
+    if r1 != r0 or f1 != f0:
+        out.append(["history:constructor-behavior", "abs() of a FRESH vector array is %%s after an unrelated constructor call on an array with its own behavior (before: %%s); foreign behavior keys on the fresh array: %%s" %% (r1, r0, sorted(set(f1) - set(f0))[:3])])
+vector.register_awkward()
+g1 = set(keys(ak.behavior)) - set(glob0) - set(reg0)
+if g1:
+    out.append(["global-state:register_awkward", "register_awkward() put foreign entries into ak.behavior: " + str(sorted(g1))[:200]])
+n1 = len(ak.behavior)
+vector.register_awkward()
+if len(ak.behavior) != n1:
+    out.append(["global-state:register_awkward", "register_awkward() is not idempotent"])
+print("JSON" + json.dumps(out))
+"""
+
+
+def behavior_isolation_probe():
+    """in a FRESH interpreter where register_awkward() has not been called: constructors applied to Awkward arrays that carry their own
+    behavior mapping (with a private key and an override of an entry vector defines) leave the caller's mapping, awkward's global registry
+    and vector's own registry unchanged, and a later unrelated constructor call gives the same result as before"""
+    import json
+    import subprocess
+    import sys
+    p = subprocess.run([sys.executable, "-c", BEHAVIOR_CODE % (C.VERIF, C.VERIF + "/tools")], capture_output=True, text=True, timeout=600)
+    line = [l for l in p.stdout.splitlines() if l.startswith("JSON")]
+    if not line:
+        return [("behavior-probe-harness", "subprocess failed: " + p.stderr[-300:])]
+    seen, out = set(), []
+    for k, d in json.loads(line[0][4:]):
+        if k not in seen:
+            seen.add(k)
+            out.append((k, d))
+    return out
+
+
 def c20_run(ctx):
     r = C.rng(ctx.seed, "c20")
     problems, samples = [], []
@@ -1012,6 +1075,7 @@ def c20_run(ctx):
         pass
     if user_behavior != b0:
         problems.append(("global-state:caller-behavior", "vector.Array mutated the behavior mapping of its input array"))
+    problems += behavior_isolation_probe()
     # thread determinism
     seq = [run_thunk(t) for _, t in cat]
     nthreads = 16
